@@ -4,6 +4,7 @@ import (
 	"fmt"
 	"github.com/go-i2p/common/key_certificate"
 	"reflect"
+	"sort"
 	"time"
 )
 
@@ -65,6 +66,44 @@ func runC04(c *Ctx) {
 	}
 	c04Codes(c)
 	c04KeyConstructors(c)
+	c04EveryByteFunction(c)
+}
+
+// c04EveryByteFunction: EVERY exported function of the library that takes a byte slice (the list
+// is regenerated from the source by the translator, so a new or previously indirect entry
+// point is covered without anyone remembering to add it) on nil, on every length 0..420 with
+// exactly that capacity, and on the prefixes of a well-formed identity: it returns, it does not panic
+func c04EveryByteFunction(c *Ctx) {
+	r := c.R
+	names := make([]string, 0, len(apiByteFuncs))
+	for n := range apiByteFuncs {
+		names = append(names, n)
+	}
+	sort.Strings(names)
+	ident := genIdentTypes(r, 7, 4, false).Encode()
+	ns := []int{0, 1, 2, 7, 8, 11, 3, 255, 65535}
+	for _, name := range names {
+		f := apiByteFuncs[name]
+		try := func(b []byte, n int) {
+			var pan interface{}
+			func() {
+				defer func() { pan = recover() }()
+				f(b, n)
+			}()
+			c.Check("parser_returns_normally", pan == nil, name, [][]byte{b, i64(int64(n))}, "", fmt.Sprintf("panicked on %d bytes: %v", len(b), pan))
+		}
+		try(nil, 0)
+		for l := 0; l <= 420; l++ {
+			b := make([]byte, l)
+			for i := range b {
+				b[i] = byte(r.U64())
+			}
+			try(b, ns[l%len(ns)])
+			if l <= len(ident) {
+				try(cp(ident[:l]), ns[(l+1)%len(ns)])
+			}
+		}
+	}
 }
 
 // c04KeyConstructors: the exported key constructors on data of EVERY length (exactly that
